@@ -15,6 +15,15 @@ Theorem C18_refused_message_writes_nothing :
   no_state_writes (h_tr h).
 Proof. exact refused_message_writes_nothing. Qed.
 Print Assumptions C18_refused_message_writes_nothing.
+(* the same for the whole handler of a board message, the operation pool included (holds since the
+   repair of OperationService.PutOperation: before it the handler reported an error AFTER the round
+   had been saved when the very same operation was still pending) *)
+Theorem C18_refused_board_message_writes_nothing :
+  forall now st m h,
+  process_board_message now {| h_st := st; h_tr := [] |} m = RErr h ->
+  no_state_writes (h_tr h).
+Proof. exact refused_board_message_writes_nothing. Qed.
+Print Assumptions C18_refused_board_message_writes_nothing.
 
 (* ---- the airgapped machine (operation files) ---- *)
 Require Import Air.Reject Air.RejectProofs.
